@@ -13,6 +13,7 @@ from corankco.element import Element
 from corankco.ranking import Ranking
 from corankco.algorithms.pairwisebasedalgorithm import PairwiseBasedAlgorithm
 from corankco.algorithms.exact.exactalgorithmcplexforpaperoptim1 import ExactAlgorithmCplexForPaperOptim1
+from corankco.algorithms.exact.exactalgorithmpulp import ExactAlgorithmPulp
 
 
 class ParCons(RankAggAlgorithm, PairwiseBasedAlgorithm):
@@ -49,6 +50,13 @@ class ParCons(RankAggAlgorithm, PairwiseBasedAlgorithm):
             self._bound_for_exact = self.DEFAULT_BOUND_FOR_EXACT
         else:
             self._bound_for_exact = bound_for_exact
+
+        # exact algorithm for the sub-problems: Cplex version if Cplex can be imported, free solver otherwise
+        try:
+            import cplex  # noqa: F401
+            self._exact_alg: RankAggAlgorithm = ExactAlgorithmCplexForPaperOptim1()
+        except ImportError:
+            self._exact_alg: RankAggAlgorithm = ExactAlgorithmPulp()
 
     def compute_consensus_rankings(
             self,
@@ -108,7 +116,7 @@ class ParCons(RankAggAlgorithm, PairwiseBasedAlgorithm):
                     res.extend(cons_ext)
                     optimal = False
                 else:
-                    cons_ext = ExactAlgorithmCplexForPaperOptim1().compute_consensus_rankings(
+                    cons_ext = self._exact_alg.compute_consensus_rankings(
                         sub_problem, scoring_scheme, True).consensus_rankings[0]
                     res.extend(cons_ext)
 
